@@ -12,12 +12,16 @@ var VarLensQuick = []int{0, 255}
 var VarLensThorough = []int{0, 1, 254, 255, 256}
 
 // PickLen splits over the boundary lengths for a variable-length kind.
-func PickLen(k Kind, tag string) int {
+func PickLen(k Kind, tag string) int { return PickLenR(k, tag, false) }
+
+// PickLenR: reduced keeps the quick menu even in the thorough tier (used for
+// the widest template shapes).
+func PickLenR(k Kind, tag string, reduced bool) int {
 	if !k.IsVar() {
 		return 0
 	}
 	ls := VarLensQuick
-	if sx.Tier() > 0 {
+	if sx.Tier() > 0 && !reduced {
 		ls = VarLensThorough
 	}
 	return ls[sx.Choose(tag, len(ls))]
@@ -102,13 +106,32 @@ func DrawKinds(maxFields int) []Kind {
 	return ks
 }
 
+// TriPool is the reduced kind pool used for three-field templates (the full
+// pool cubed is out of reach).
+var TriPool = []Kind{KU8, KS32, KF64, KBool, KIPv6, KString, KOctetFix, KUserBig}
+
+// DrawKindsTiered: all templates of 1..2 kinds from the full pool, and (when
+// maxFields is 3) all triples from TriPool.
+func DrawKindsTiered(maxFields int) []Kind {
+	n := sx.Range("nfields", 1, maxFields)
+	ks := make([]Kind, n)
+	for i := range ks {
+		if n >= 3 {
+			ks[i] = TriPool[sx.Choose("kind", len(TriPool))]
+		} else {
+			ks[i] = Kind(sx.Choose("kind", int(NumKinds)))
+		}
+	}
+	return ks
+}
+
 // DrawRecords draws nrec records of symbolic values for the kinds.
 func DrawRecords(kinds []Kind, nrec int) [][]Val {
 	recs := make([][]Val, nrec)
 	for r := range recs {
 		recs[r] = make([]Val, len(kinds))
 		for i, k := range kinds {
-			recs[r][i] = Draw(k, "value", PickLen(k, "len"))
+			recs[r][i] = Draw(k, "value", PickLenR(k, "len", len(kinds) >= 3))
 		}
 	}
 	return recs
